@@ -88,6 +88,10 @@ func encRun(r *run, prop string, c *encCase) {
 		l.(slog.LogSlogAware).WriteThru(context.Background(), slog.Level(c.lvl), c.ts, c.pc, c.msg, encAttrsOf(c))
 	}()
 	w := rec.take()
+	if prefix, inGrouped, skipComma := slog.VerifPoolRestState(); panicked == "" && (prefix != "" || inGrouped || skipComma) {
+		r.violate(violation{What: "a print context went back to the pool with per-record scratch state that the next record inherits",
+			Input: encDescribe(c), Actual: fmt.Sprintf("prefix=%q inGroupedMode=%v skipComma=%v", prefix, inGrouped, skipComma)})
+	}
 	c.writes = len(w)
 	obs := "no-write"
 	if panicked != "" {
